@@ -66,8 +66,8 @@ impl Cylinder {
             )?))
         } else {
             Some(Either::Left(Self::new(
-                self.half_height * scale.y,
-                self.radius * scale.x,
+                self.half_height * scale.y.abs(),
+                self.radius * scale.x.abs(),
             )))
         }
     }
